@@ -8,6 +8,8 @@ CONSTANTS
  Waits <- NoWaits
  CancelOf <- NoCancel
  Foreign = TRUE
+ KindOf <- AllCalls
+ LoadOf <- NoLoad
  ClearInputs = TRUE
 INVARIANT Inv_C03
 INVARIANT Inv_C07
